@@ -162,7 +162,7 @@ def deep_copy_rule(index: RepoIndex, rep, rule: str) -> None:
     # OuterEnv.step / reset hand the action to the inner environment exactly once
     from .c04 import outer_delegation, state_machine
     state_machine(index, rep, rule)
-    outer_delegation(index, rep, rule)
+    outer_delegation(index, rep, rule, strict=False)
 
 
 def run(index: RepoIndex, rep) -> None:
